@@ -175,7 +175,12 @@ func implGcsPrune(line string) string {
 				f.put("bkt", key, []byte("x"))
 			}
 		}
-		f.put("bkt", "unrelated-"+prefix+"object", []byte("y"))
+		// an object outside the store's prefix; with the empty prefix every object of the bucket lies inside the store, so
+		// there is none to add (it would be a listed name the case line does not tell the model about: a third page request
+		// in the run VERIF_SEED=5, a false alarm of this harness, corrected in session 7)
+		if prefix != "" {
+			f.put("bkt", "unrelated-"+prefix+"object", []byte("y"))
+		}
 		f.pageSize, _ = strconv.Atoi(a["page"])
 		if n, err := strconv.Atoi(a["listfail"]); err == nil {
 			sc := make([]string, n+1)
@@ -219,7 +224,7 @@ func implGcsPrune(line string) string {
 			rem = append(rem, hx([]byte(d))+"/"+hx([]byte(n)))
 		}
 		sort.Strings(rem)
-		if !other {
+		if !other && prefix != "" {
 			return "removed-an-object-outside-the-prefix " + strings.Join(rem, ";")
 		}
 		if perr != nil {
